@@ -23,6 +23,8 @@
  *                               instance type_instance implements type_implements method_at_offset
  *                               type_method_at_offset implements_method_at_offset type_implements_method_at_offset
  *   sq <E> <Type> <class> <m>   same lookup on a built-in type, answer relative to the raw-record oracle
+ *   oq <E> <Type> <class> <m>   the built-in type OBJECT itself as receiver (E in I P M R, or O = type_of); oracle = Type's
+ *                               record; ",v=1" when nothing had looked at that object before in this process
  *   api <class> <m>             call the public function that dispatches to member m (len, push, ...)
  *   cast <x|s:Type> <self|twin|name>
  *   tname | tsize               c_str(T) / size(T)
@@ -627,6 +629,32 @@ static void exec_q(char** w, int n, char* out, size_t cap) {
     else { snprintf(c, sizeof c, "%s", r.ptr is NULL ? "n" : (r.ptr is oinst ? "s" : "o")); }
     snprintf(out, cap, "%s,d=%d,m=%d", c, d, mm);
   }
+  else if (strcmp(w[0], "oq") is 0 and n >= 5) {
+    /* the static type object itself as the receiver (an object of type Type): ",v=1" = its header's type field was
+     * still unset, i.e. nothing had looked at this object before */
+    int ti = type_index(w[2]); struct Target t; int m = atoi(w[4]);
+    if (ti < 0 or not resolve(w[3], &t) or m < 0 or m >= t.nmem) { bug("oq: bad type, class or member"); }
+    const char* cname = t.k >= 0 ? CLS[t.k].name : (t.fi >= 0 ? fillers[t.fi].name : w[3]);
+    var self = *TYPES[ti].t;
+    int virgin = ((struct Header*)((char*)self - sizeof(struct Header)))->type is NULL;
+    var oinst = ora_scan(Type, cname);
+    int d = oinst ? 1 : 0, mm = (oinst and ((var*)oinst)[m] isnt NULL) ? 1 : 0;
+    const char* mn = t.k >= 0 ? CLS[t.k].mn[m] : "member";
+    char E = w[1][0];
+    if (E isnt 'I' and E isnt 'P' and E isnt 'M' and E isnt 'R' and E isnt 'O') { bug("oq: entry point takes a type, not an object"); }
+    char c[48];
+    if (E is 'O') {
+      var volatile r = NULL; var volatile ex = NULL;
+      try { r = type_of(self); } catch (e) { ex = e; }
+      if (ex) { snprintf(c, sizeof c, "%s", c_str(ex)); } else { snprintf(c, sizeof c, "%s", r is Type ? "s" : "o"); }
+    } else {
+      struct Res r = entry(E, self, Type, t.obj, m, mn, false);
+      if (r.kind is 2) { snprintf(c, sizeof c, "%s", strcmp(r.exc, "ClassError") is 0 ? "C" : r.exc); }
+      else if (r.kind is 1) { snprintf(c, sizeof c, "%d", r.b); }
+      else { snprintf(c, sizeof c, "%s", r.ptr is NULL ? "n" : (r.ptr is oinst ? "s" : "o")); }
+    }
+    snprintf(out, cap, "%s,d=%d,m=%d,v=%d", c, d, mm, virgin);
+  }
   else if (strcmp(w[0], "cast") is 0 and n >= 3) {
     var obj; struct Target t;
     if (strcmp(w[1], "x") is 0) { obj = X; }
@@ -654,7 +682,7 @@ static void exec_q(char** w, int n, char* out, size_t cap) {
 
 static void op_q(char** w, int n) {
   char out[128];
-  if (not rt_made and strcmp(w[0], "sq") isnt 0 and not (strcmp(w[0], "cast") is 0 and w[1][0] is 's')) { bug("lookup before mk"); }
+  if (not rt_made and strcmp(w[0], "sq") isnt 0 and strcmp(w[0], "oq") isnt 0 and not (strcmp(w[0], "cast") is 0 and w[1][0] is 's')) { bug("lookup before mk"); }
   need_cello();
   exec_q(w, n, out, sizeof out);
   int d = exc_depth();
@@ -820,7 +848,7 @@ static void case_child(char** lines, int nlines) {
     else if (strcmp(op, "ri") is 0) { op_inst(w, n, true); }
     else if (strcmp(op, "redeclare") is 0) { op_redeclare(w, n); }
     else if (strcmp(op, "mk") is 0) { op_mk(); }
-    else if (strcmp(op, "q") is 0 or strcmp(op, "sq") is 0 or strcmp(op, "cast") is 0 or strcmp(op, "tname") is 0) { op_q(w, n); }
+    else if (strcmp(op, "q") is 0 or strcmp(op, "sq") is 0 or strcmp(op, "oq") is 0 or strcmp(op, "cast") is 0 or strcmp(op, "tname") is 0) { op_q(w, n); }
     else if (strcmp(op, "tsize") is 0) { need_cello(); op_tsize(); }
     else if (strcmp(op, "api") is 0) { need_cello(); op_api(w, n); }
     else if (strcmp(op, "tq") is 0) { op_tq(w, n); }
